@@ -116,6 +116,11 @@ func workerMain(args []string) {
 	if *wl == "c18" {
 		fmt.Fprintf(out, "PAIRS %x\n", engine.SitePairBitmap())
 	}
+	fmt.Fprintf(out, "SITES %x\n", engine.SiteHits())
+	if *from == 0 {
+		b, _ := json.Marshal(engine.SiteNames())
+		fmt.Fprintf(out, "SITENAMES %s\n", b)
+	}
 }
 
 // execMain executes one plan file (replay / minimisation candidate).
